@@ -390,4 +390,33 @@ def selectPort (preferObfuscated : Bool) (port obfuscatedPort : Nat) : Nat × Bo
   else if port ≠ 0 then (port, false)
   else (obfuscatedPort, true)
 
+/-! ### Connect-back, from the server's ConnectToPeer to the answer (`_handle_connect_to_peer`, network.py:955-995) -/
+
+/-- how the dial ends (the environment): connected and PeerPierceFirewall written / `connect()` fails (refused, timeout:
+`ConnectionFailedError`) / connected but the write of PeerPierceFirewall fails (`ConnectionWriteError`) -/
+inductive BackHow | ok | refused | writeFails
+  deriving DecidableEq, Repr
+
+/-- what the request has done when its task is over -/
+structure BackOut where
+  dial : Nat × Bool            -- `PeerConnection(ip, port, obfuscated=…)`: what `select_port` gave (port 0: there is none)
+  pierced : Bool               -- PeerPierceFirewall(ticket) has reached the asking peer
+  cc : Bool                    -- CannotConnect(ticket, username) has been sent to the server
+  registered : Bool            -- the connection object is (still) in `peer_connections`
+  wire : Option (Bool × Wire)  -- connected: (the pierce message went out obfuscated, the object after `_finalize_…`)
+  deriving DecidableEq, Repr
+
+/-- `_handle_connect_to_peer` for a ConnectToPeer(typ, port, obfuscated port — `none`: the message ends before the
+obfuscated-port fields, `select_port` takes `None` like 0).  The connection object is created and registered with
+whatever `select_port` returns — also port 0 when the asking peer has no port at all — and `connect()` is called inside
+the `try`: both `NetworkError`s (connect failed: the object is closed and unregistered by `disconnect`; write failed:
+likewise) end in CannotConnect to the server and `PeerConnectionError`.  A dial of port 0 can only be refused (`none`:
+not an environment behaviour). -/
+def connectBack (t : CT) (prefer : Bool) (port : Nat) (obfs : Option Nat) (how : BackHow) : Option BackOut :=
+  let d := selectPort prefer port (obfs.getD 0)
+  if d.1 = 0 ∧ how ≠ .refused then none
+  else match how with
+    | .ok => some { dial := d, pierced := true, cc := false, registered := true, wire := some (connectBackWire t d.2) }
+    | .refused | .writeFails => some { dial := d, pierced := false, cc := true, registered := false, wire := none }
+
 end AioslskVerif.PeerConnect
